@@ -123,7 +123,9 @@ func (tqs *TaskQueueSet) Iterate(doFn func(queue *TaskQueue)) {
 		return
 	}
 
-	main := tqs.GetMain()
+	// The read lock is already held: taking it again (GetMain) blocks for good once a writer
+	// (DoWithLock) has started waiting in between.
+	main := tqs.Queues[tqs.MainName]
 	if main != nil {
 		doFn(main)
 	}
